@@ -65,10 +65,11 @@ func main() {
 		Rule:  "bounded exhaustive enumeration: signed size in {0,1,B-1,B,B+1,2B,2B+1 (thorough: +3B)} x written content = signed content with every assignment of {unchanged, first byte inverted, last byte inverted, replaced by the next signed block (full blocks only)} to its blocks | truncated to every length of {0,1,B-1,B,B+1,2B,size-1} below the size | extended by {1,B-1,B,B+1} (thorough: every single-block alteration combined with every length change) x slicing = every set of <=3 cuts at positions {1,B-1,B,B+1,2B-1,2B,len-1} inside the written range, plus uniform writes of 1, 4096, 32768 and B+1 bytes x mode {error, wound, wound through AggregateWounds}. Each case drives the real ValidatingPool writer over verif/lib/mempool; after a failed Write no further Write is issued and the writer is closed, as a caller with a deferred Close does. Oracle by direct byte comparison per block. Non-trivial = the written content has at least one differing or surplus block and at least one boundary between two Write calls lies inside a block.",
 		Assumptions: []string{
 			"block contents are seeded pseudo-random (VERIF_SEED); altered bytes are bit inversions of single bytes, or whole signed blocks moved by one position",
-			"sequential part only: the goroutines of wound mode (relay, aggregator, a draining consumer) run under the Go scheduler; their interleavings are the subject of the separate E2 check",
+			"sequential part only: the goroutines of wound mode (relay, aggregator, a draining consumer) run under the Go scheduler; their interleavings are enumerated by the scheduler-controlled sub-check wound-interleavings (variant sched)",
 			"wound-mode records beyond the signed length are only required to be wounds in offset order (their extents are not constrained by the statement)",
 			"zero-length Write calls are not enumerated",
 		},
+		Variants:       []string{"sched"},
 		QuickBudget:    80 * time.Second,
 		ThoroughBudget: 12 * time.Minute,
 	}, body)
@@ -369,7 +370,13 @@ func recs(rs []record) string {
 	return "[" + strings.Join(s, " ") + "]"
 }
 
+var schedSubs func(w *runner.W)
+
 func body(w *runner.W) {
+	if schedSubs != nil && w.Variant == "sched" {
+		schedSubs(w)
+		return
+	}
 	fixtures := map[int]*fixture{}
 	signedOf := map[int][]byte{}
 	run := func(c Case, r *runner.Rec) {
